@@ -68,8 +68,9 @@ func refISOWeek(y, m, d int) (int, int) {
 
 // zzDate returns an arbitrary valid date of the century window plus its fields.
 func zzDate(prefix string) (klog.Date, int, int, int) {
-	c := zz.Param("century")
-	y := zz.IntRange(prefix+"y", c*100, c*100+99)
+	// year window: [from, from+span-1]
+	from, span := zz.Param("from"), zz.Param("span")
+	y := zz.IntRange(prefix+"y", from, from+span-1)
 	m := zz.IntRange(prefix+"m", 1, 12)
 	d := zz.IntRange(prefix+"d", 1, 31)
 	zz.Assume(d <= refDaysIn(y, m))
